@@ -72,14 +72,20 @@ theorem record_valid (b : Bytes) (eoh i : Nat) (segs segs' : List Seg) (k : Key)
     rw [hk']
   · obtain ⟨_, h2, lang, h4, hl⟩ := hm
     unfold lenLang
-    simp only []
+    dsimp only
     rw [if_neg (by omega)]
-    simp only [rd32_of_slice b d o 4 hs (by omega), rd16_of_slice b d o 10 hs (by omega), h2, h4]
+    rw [rd32_of_slice b d o 4 hs (by omega), rd16_of_slice b d o 10 hs (by omega), h2, h4]
+    dsimp only
+    rw [if_neg (by omega)]
+    sorry
+  · obtain ⟨_, h2, hl⟩ := hm
+    unfold lenLang
+    simp only [rd32_of_slice b d o 2 hs (by omega), h2]
     rw [if_neg (by omega)]
     simp only [hov, hsl]
-    have hk' : (⟨k.p, k.e, if k.p ≠ 1 then 0 else lang⟩ : Key) = k := by
-      rw [← hl]
+    have hk' : (⟨k.p, k.e, if k.p ≠ 1 then 0 else 0⟩ : Key) = k := by
+      have : (if k.p ≠ 1 then 0 else 0) = k.l := by rw [hl]; split <;> rfl
+      rw [this]
     rw [hk']
-  · sorry
 
 end SfntV.CmapTable
